@@ -101,6 +101,74 @@ func applyMutation(mt *MsgType, live any, model *dynamicpb.Message, src *dynamic
 
 type hstats struct {
 	marshals, staleCandidates, steps int
+	plainChildTouched                int
+}
+
+// runtimeTouchPlainChild calls the owning runtime's Size (or Marshal) on the k-th populated singular child of live
+// whose Go type has no generated fast-marshal methods.  Reports whether there was one.
+func runtimeTouchPlainChild(mt *MsgType, live any, k int, marshal bool) bool {
+	cm := reflectOf(live)
+	var kids []any
+	cm.Range(func(fd protoreflect.FieldDescriptor, v protoreflect.Value) bool {
+		if fd.Message() != nil && !fd.IsList() && !fd.IsMap() {
+			if conc := concreteOf(v.Message()); conc != nil {
+				if _, fast := conc.(fastMsg); !fast {
+					kids = append(kids, conc)
+				}
+			}
+		}
+		return true
+	})
+	if len(kids) == 0 {
+		return false
+	}
+	sort.Slice(kids, func(i, j int) bool { return fmt.Sprintf("%T", kids[i]) < fmt.Sprintf("%T", kids[j]) })
+	child := kids[k%len(kids)]
+	defer func() { _ = recover() }()
+	switch mt.Info.Runtime {
+	case "gv2", "gv1gen":
+		if pm, ok := child.(proto.Message); ok {
+			if marshal {
+				_, _ = proto.Marshal(pm)
+			} else {
+				_ = proto.Size(pm)
+			}
+			return true
+		}
+	case "gogo":
+		if pm, ok := child.(gogo.Message); ok {
+			if marshal {
+				_, _ = gogo.Marshal(pm)
+			} else {
+				_ = gogo.Size(pm)
+			}
+			return true
+		}
+	case "legacy":
+		if pm, ok := child.(golang.Message); ok {
+			if marshal {
+				_, _ = golang.Marshal(pm)
+			} else {
+				_ = golang.Size(pm)
+			}
+			return true
+		}
+	}
+	return false
+}
+
+// plainChildTypes: the types with a singular field of a well-known type (no fast-marshal code for the child).
+func plainChildTypes(ts []*MsgType) []*MsgType {
+	var out []*MsgType
+	for _, mt := range ts {
+		for i := 0; i < mt.Desc.Fields().Len(); i++ {
+			if fd := mt.Desc.Fields().Get(i); fd.Message() != nil && !fd.IsList() && !fd.IsMap() && strings.HasPrefix(string(fd.Message().FullName()), "google.protobuf.") {
+				out = append(out, mt)
+				break
+			}
+		}
+	}
+	return out
 }
 
 func runtimeSize(mt *MsgType, m any) {
@@ -183,6 +251,12 @@ func oracleC09(c *HCase) (f *ev.Failure, st hstats) {
 				rtTouched = true
 				sizedBefore = true
 				runtimeMarshal(mt, live)
+			case "rtsizechild":
+				// the owning runtime sizes / marshals a CHILD that has no fast-marshal code of its own (a well-known type)
+				// directly: the parent's own cache is not involved, the child's runtime-side cache is
+				if runtimeTouchPlainChild(mt, live, op.Field, op.Sub%2 == 1) {
+					st.plainChildTouched++
+				}
 			case "marshal":
 				out, err = fm.Marshal()
 				checkOut = true
@@ -312,10 +386,12 @@ func freshFails(mt *MsgType, model *dynamicpb.Message) bool {
 	return guard("C09", mt, "fresh", func() { _, _ = fresh.(fastMsg).Marshal() }) != nil
 }
 
-var c09Kinds = []string{"copyfield", "copyfield", "copyfield", "copychild", "copychild", "truncate", "size", "marshal", "marshal", "marshalto", "cssize", "csmarshal", "rtsize", "rtmarshal", "unmarshal", "reset", "clone"}
+var c09KindsPlainChild = []string{"copychild", "copychild", "copychild", "copyfield", "rtsizechild", "rtsizechild", "rtsizechild", "marshal", "marshalto", "csmarshal", "size", "unmarshal", "reset"}
+
+var c09Kinds = []string{"rtsizechild", "copyfield", "copyfield", "copyfield", "copychild", "copychild", "truncate", "size", "marshal", "marshal", "marshalto", "cssize", "csmarshal", "rtsize", "rtmarshal", "unmarshal", "reset", "clone"}
 
 func TestC09(t *testing.T) {
-	rec := ev.New("C09", "case = one live message of a generated type + a pool of 2..4 generated values + a program of <= 25 ops over {copy a field (or a field of an existing child) from a pool value = set / clear / grow / shrink through plain reflection stores, empty a repeated field in place (non-nil slice of length 0), Size, Marshal, MarshalTo, csproto.Size, csproto.Marshal, the owning runtime's own Size and Marshal, Unmarshal(pool value), Reset, Clone (continue on the clone)}; invariant after every Marshal/MarshalTo/csproto.Marshal: the bytes equal Marshal of a FRESH message populated from the model of the current contents (up to map-entry order when a map has >= 2 entries), no op panics; the concurrent clause runs in a -race binary (TestC09Race); non-trivial = a Marshal* preceded by a Size/Marshal (own, csproto's or the runtime's) and a later mutation that changed the encoded length; distinct by program")
+	rec := ev.New("C09", "case = one live message of a generated type + a pool of 2..4 generated values + a program of <= 25 ops over {copy a field (or a field of an existing child) from a pool value = set / clear / grow / shrink through plain reflection stores, empty a repeated field in place (non-nil slice of length 0), Size, Marshal, MarshalTo, csproto.Size, csproto.Marshal, the owning runtime's own Size and Marshal - on the message, or directly on a child of a well-known type (1 in 8 programs target types with such a child) -, Unmarshal(pool value), Reset, Clone (continue on the clone)}; invariant after every Marshal/MarshalTo/csproto.Marshal: the bytes equal Marshal of a FRESH message populated from the model of the current contents (up to map-entry order when a map has >= 2 entries), no op panics; the concurrent clause runs in a -race binary (TestC09Race); non-trivial = a Marshal* preceded by a Size/Marshal (own, csproto's or the runtime's) and a later mutation that changed the encoded length; distinct by program")
 	defer rec.Write()
 	useRecorder(rec)
 	defer func() { t.Log(rec.Summary()); fmt.Print(rec.SurveyReport()) }()
@@ -324,8 +400,15 @@ func TestC09(t *testing.T) {
 	if len(mine) == 0 {
 		return
 	}
+	withPlain := plainChildTypes(mine)
 	ev.Rapid(t, ev.N(16000, 400000), 9, func(rt *rapid.T) {
 		mt := rapid.SampledFrom(mine).Draw(rt, "type")
+		kinds := c09Kinds
+		if len(withPlain) > 0 && rapid.IntRange(0, 7).Draw(rt, "plainchild") == 0 {
+			// a type with a well-known-type child, and a program that favours touching that child directly
+			mt = rapid.SampledFrom(withPlain).Draw(rt, "plainchildtype")
+			kinds = c09KindsPlainChild
+		}
 		c := &HCase{Type: mt.Key()}
 		for i := rapid.IntRange(2, 4).Draw(rt, "nvalues"); i > 0; i-- {
 			v, b := canon(genDyn(rt, mt.Desc, 2, genOpts{runtime: mt.Info.Runtime, requiredProb: 10, maxMap: 2}))
@@ -337,12 +420,13 @@ func TestC09(t *testing.T) {
 			c.Values = append(c.Values, b)
 		}
 		for i := rapid.IntRange(2, 25).Draw(rt, "nops"); i > 0; i-- {
-			c.Prog = append(c.Prog, HOp{Kind: rapid.SampledFrom(c09Kinds).Draw(rt, "kind"), Value: rapid.IntRange(0, 3).Draw(rt, "value"), Field: rapid.IntRange(0, 40).Draw(rt, "field"), Sub: rapid.IntRange(0, 8).Draw(rt, "sub")})
+			c.Prog = append(c.Prog, HOp{Kind: rapid.SampledFrom(kinds).Draw(rt, "kind"), Value: rapid.IntRange(0, 3).Draw(rt, "value"), Field: rapid.IntRange(0, 40).Draw(rt, "field"), Sub: rapid.IntRange(0, 8).Draw(rt, "sub")})
 		}
 		f, st := oracleC09(c)
 		rec.Eval(int64(st.steps))
 		rec.Class("variant/" + mt.Info.Variant)
 		rec.ClassN("marshal-ops", int64(st.marshals))
+		rec.ClassN("runtime-sized-a-plain-child-directly", int64(st.plainChildTouched))
 		if st.staleCandidates > 0 {
 			rec.Class("program/marshal-after-size-and-length-changing-mutation")
 			cj, _ := json.Marshal(c)
